@@ -6,6 +6,8 @@ one bar per scheduled task from its start over its duration, none for unschedule
 item is a marker of width 0.1 centred on its instant; the label is centred on the bar; buffers are
 drawn as the reported step function.  That matplotlib turns broken_barh([(x, w)], (y, h)) into that
 rectangle is assumed; natively the real renderer is also run (it must not raise)."""
+import datetime
+
 import z3
 
 from psvc.contract import Contract, Clause, register, T, And, Or, Not, Implies, If
@@ -32,10 +34,23 @@ class GanttMatplotlib(Contract):
                 for buf in (False, True):
                     out.append(dict(shape=shape, mode=mode, buffer=buf))
         out.append(dict(shape=SHAPES[0], mode="Wrong", buffer=False))
+        # calendar times: the time axis is labelled with clock times (start_time + i * delta_time) or durations
+        for cal in ("delta", "start+delta"):
+            for mode in ("Resource", "Task"):
+                out.append(dict(shape=SHAPES[1], mode=mode, buffer=(mode == "Task"), cal=cal))
         return out
 
+    DELTA = datetime.timedelta(minutes=45)
+    START = datetime.datetime(2024, 2, 28, 22, 30)
+
     def build(self, ps, P, case):
-        pb, sol = make_solution(ps, P, case["shape"])
+        kw = {}
+        if case.get("cal"):
+            kw["delta_time"] = self.DELTA
+            if case["cal"] == "start+delta":
+                kw["start_time"] = self.START
+            P.assume(P.int("hz") <= 3)  # the tick labels are built in a loop over the horizon: unrolled
+        pb, sol = make_solution(ps, P, case["shape"], **kw)
         if case["buffer"]:
             BufferSolution = ps.solution.BufferSolution
             b = BufferSolution(name="b")
@@ -132,6 +147,24 @@ class GanttMatplotlib(Contract):
         yl = calls(log, "ax0", "set_ylim")
         okx = len(xl) == 1 and len(xl[0][0]) == 2
         out.append(Clause("draws[axes show the time line from 0 to the horizon and every row]", And(z3.BoolVal(okx and len(yl) == 1 and tuple(yl[0][0]) == (0, 2 * len(rows))), (T(xl[0][0][0]) == 0) if okx else z3.BoolVal(False), (T(xl[0][0][1]) == T(sol.horizon)) if okx else z3.BoolVal(False)), props=("C17",), kind="equals"))
+        if case.get("cal"):
+            xt = [(a, k) for (n, m, a, k) in log if n == "plt" and m == "xticks"]
+            ok = len(xt) == 1 and len(xt[0][0]) == 2
+            eqs = []
+            if ok:
+                locs, labels = xt[0][0]
+                labels = list(labels)
+                # one tick per instant 0 .. horizon, each labelled with its calendar time
+                if isinstance(locs, sym.SymRange):
+                    lo, hi = locs.bounds()
+                    eqs += [T(lo) == 0, T(hi) == len(labels)]
+                else:
+                    ok = list(locs) == list(range(len(labels)))
+                eqs.append(T(sol.horizon) + 1 == len(labels))
+                for i, lab in enumerate(labels):
+                    want_lab = (self.START + i * self.DELTA).strftime("%H:%M") if case["cal"] == "start+delta" else f"{i * self.DELTA}"
+                    ok = ok and lab == want_lab
+            out.append(Clause("draws[calendar times: one tick per instant 0 .. horizon, labelled start_time + i * delta_time]", And(z3.BoolVal(bool(ok)), *eqs), props=("C17",), kind="equals", bounded="horizon <= 3 (tick labels built by an unrolled loop)"))
         out.append(Clause("state[rendering succeeds]", z3.BoolVal(bool(ctx["ok"])), props=("C17",), kind="state"))
         return out
 
